@@ -49,6 +49,7 @@ def make_harness(job):
     ct = spec.types[tpl['type']]
     gen = Gen(parsed, bounds_for(job['tier'], tpl), job['numeric_enums'], tie=tpl.get('tie'))
     eq = Equiv(gen, job['W'])
+    pyfront.patch_lookup_dicts(spec)
     cands = C.Candidates(spec)
     td = parsed[tpl['module']]['types'][tpl['type']]
 
